@@ -298,13 +298,13 @@ def configs(tier, seed):
     for a in cc.atoms(tier, seed):
         c = dict(a)
         c.update(harness="enc", id="enc/" + cc.atom_id(a), tail=a.get("tail", True),
-                 build={k: v for k, v in a.items() if k not in ("vlen", "sidx")})
+                 build={k: v for k, v in a.items() if k not in ("vlen", "sidx", "slen")})
         if a["dt"] == "A_UINT32" and a.get("enc") == "BCD-P":
             c["W"] = 48
         out.append(c)
     seen = set()
     for a in cc.atoms(tier, seed):
-        b = {k: v for k, v in a.items() if k not in ("vlen", "sidx")}
+        b = {k: v for k, v in a.items() if k not in ("vlen", "sidx", "slen")}
         key = json.dumps(b, sort_keys=True)
         if key in seen:
             continue
@@ -322,14 +322,15 @@ def configs(tier, seed):
     for a in cc.atoms(tier, seed):
         if a.get("cmname") or a.get("mask") is not None:
             continue
-        key = (a["dt"], a.get("enc"), a.get("dct", "std"), a.get("term"), a.get("vlen"), a.get("sidx"))
+        key = (a["dt"], a.get("enc"), a.get("dct", "std"), a.get("term"), a.get("vlen"), a.get("sidx"),
+               a.get("slen"))
         grp = (a["dt"], a.get("dct", "std"))
         picked.setdefault(grp, {})
         if key not in picked[grp] and len(picked[grp]) < (6 if tier == "quick" else 40):
             picked[grp][key] = a
     for grp in picked.values():
         for a in grp.values():
-            b = {k: v for k, v in a.items() if k not in ("vlen", "sidx")}
+            b = {k: v for k, v in a.items() if k not in ("vlen", "sidx", "slen")}
             c = dict(a)
             c.update(harness="two-enc", id="two-enc/" + cc.atom_id(a), tail=a.get("tail", True), build=b)
             out.append(c)
